@@ -179,6 +179,8 @@ def build(script):
         if script.get('base') is not None:
             # `base_scalar`: the documented scalar form of `base` (one base for the exp-spaced axis, which is then the first axis)
             kw['base'] = script['base'][0] if script.get('base_scalar') else tuple(script['base'])
+        if script.get('abs_value') is not None:
+            kw['abs_value'] = script['abs_value']       # only scripted with noisy=False, where it is documented to have no effect
         return G.GeneratorND(grid=tuple(script['grid']), r_min=tuple(script['mins']), r_max=tuple(script['maxs']),
                              methods=list(script['methods']), noisy=script['noisy'],
                              r_noise_std=tuple(script['noise']) if script.get('noise') else None, **kw)
@@ -630,6 +632,12 @@ def scripts(tier, seed, accepted):
             ms = ['exp-spaced'] + others
             out.append(dict(cls='nd', method='+'.join(ms), methods=ms, grid=[3] + [2 + j for j in range(len(others))], mins=[0.5] * len(ms),
                             maxs=[2.0] * len(ms), noisy=False, ncalls=2, base=[b] + [10.0] * len(others), base_scalar=True))
+    # options that only concern the noise (abs_value) leave the deterministic grid alone - also on axes with negative coordinates
+    for ms in (['equally-spaced', 'equally-spaced'], ['chebyshev', 'equally-spaced', 'chebyshev2']):
+        if all(m in accepted['nd'] for m in ms):
+            for av in (True, False):
+                out.append(dict(cls='nd', method='+'.join(ms), methods=ms, grid=[3 + j for j in range(len(ms))], mins=[-2.0, 0.5, -1.0][:len(ms)],
+                                maxs=[-1.0, 2.0, 3.0][:len(ms)], noisy=False, ncalls=2, abs_value=av))
     # reversed bounds for the deterministic methods
     for c, k in (('g1', 1), ('g2', 2), ('g3', 3), ('nd', 2)):
         for m in accepted[c]:
@@ -810,7 +818,7 @@ def check(tier, seed):
         'torch.linspace/logspace/meshgrid/cos/acos/atan2/sqrt/log/clamp compute the functions they name up to rounding (observed: every coordinate compared with the Lean Float model)',
         'torch.rand returns values in [0,1), torch.randperm(n) a permutation of 0..n-1, torch.randint(0,2) values in {0,1} (the supports the theorems quantify over)',
         'torch.normal(mean, std) = z*std + mean with z standard normal from the same stream (checked on every recorded call by replaying torch.randn from the saved RNG state)',
-        'GeneratorND options cut / abs_value are at their defaults; base, r_noise_std, noise_std, xy_noise_std are exercised',
+        'GeneratorND option cut is at its default, abs_value is exercised without noise (where it must have no effect); base, r_noise_std, noise_std, xy_noise_std are exercised',
         'spherical: a + b + c > 0 is a hypothesis of the no-NaN theorem (draws a = b = c = 0 have probability 0; that single point is tested only if listed as a known finding)',
         'freshness is proved as injectivity in the draws (noise scale ≠ 0); that the RNG stream itself does not repeat is a property of torch',
     ]
